@@ -139,7 +139,7 @@ pub fn response(framing: Framing, payload: &[u8], chunks: &[usize], deco: Deco, 
     let mut wire;
     match framing {
         Framing::Length => {
-            let cl = payload.len().to_string();
+            let cl = if deco == Deco::LeadingZeros { format!("{:04}", payload.len()) } else { payload.len().to_string() };
             wire = head("200 OK", &[("Content-Length", &cl)]);
         }
         Framing::Chunked => {
